@@ -46,6 +46,7 @@ RULE = (
     "so instances compete; helpers: matrices with >= 2 rows and >= 2 columns, non-identical box / vector pairs"
 )
 ASSUMPTIONS = [
+    "history part: all ordered pairs (thorough: triples) of 30 compute_oks calls colliding in shapes with different stddev/scale options, each history in a forked child, compared with a fresh-process result",
     "coordinates come from the alphabet {NaN, 0, 1, 3, 10} (a node is either missing = NaN in both coordinates, or a grid point; "
     "half-NaN nodes are outside the alphabet), plus one very far predicted point (1e6, 1e6); 2-D points only",
     "n_nodes <= 2 over the full 17-value node alphabet, n_nodes = 3 over a 5-value (quick) / a 5- and a 6-value (thorough) node alphabet",
@@ -981,8 +982,38 @@ def _determinism_probe():
             raise RuntimeError(f"non-deterministic observation for probe {c['kind']}: {a} vs {b}")
 
 
+def history_calls():
+    """compute_oks / compute_instance_area calls colliding in shapes, with different stddev / scale options."""
+    import numpy as np
+
+    out = []
+    base = np.array([[0.0, 0.0], [3.0, 1.0], [1.0, 4.0], [5.0, 5.0]])
+    for n_nodes in (2, 3, 4):
+        for (n_gt, n_pr) in ((1, 1), (2, 1), (1, 2), (2, 2)):
+            gt = np.stack([base[:n_nodes] + 7.0 * g for g in range(n_gt)])
+            pr = np.stack([base[:n_nodes] + 7.0 * g + 0.5 for g in range(n_pr)])
+            if n_nodes > 2:
+                gt[0, 1] = np.nan
+            for opt in ({}, {"stddev": 0.5}, {"stddev": [0.1 * (k + 1) for k in range(n_nodes)]}, {"scale": 4.0}, {"use_cocoeval": False}):
+                out.append((f"compute_oks(n_gt={n_gt},n_pr={n_pr},nodes={n_nodes},{opt})", {"gt": gt, "pr": pr, "opt": opt}))
+    return out[::2]
+
+
+def history_run(entry):
+    import numpy as np
+
+    from sleap_nn.evaluation import compute_oks
+
+    c = entry[1]
+    opt = {k: (np.array(v) if isinstance(v, list) else v) for k, v in c["opt"].items()}
+    return compute_oks(c["gt"].copy(), c["pr"].copy(), **opt)
+
+
 def run(ctx):
     core.setup_torch()
+    from mc import history as _history
+
+    _history.search(ctx, history_calls(), history_run, depth=2 if ctx.tier == "quick" else 3)
     thorough = ctx.tier == "thorough"
     tier = ctx.tier
     env = make_env()
@@ -1085,6 +1116,10 @@ def run(ctx):
 
 
 def replay(case):
+    if isinstance(case, dict) and case.get("kind") == "history":
+        from mc import history as _history
+
+        return _history.replay(case, history_calls(), history_run)
     case = dict(case)
     kind = case["kind"]
     msg, obs = EVAL[kind](case)
